@@ -207,10 +207,12 @@ impl Prop for C12 {
         let Ok((p1, w1)) = inproc::parse_and_write(&case.data) else { return None };
         let is_bare = |f: &PFile| f.hunks.is_empty() && !f.rename && f.old_mode.is_none() && f.new_mode.is_none() && f.old_hash.is_none() && f.new_hash.is_none();
         if p1.iter().any(is_bare) {
-            // exactly R4: apart from the vanished entries everything else survives the round trip
+            // exactly R4: apart from do-nothing entries (which may vanish, and - when the text before them
+            // holds extended header lines that were garbage the first time - re-appear in different number)
+            // everything survives the round trip
             if let Ok((p2, _)) = inproc::parse_and_write(&w1) {
                 let rest: Vec<_> = p1.iter().filter(|f| !is_bare(f)).map(view).collect();
-                let got: Vec<_> = p2.iter().map(view).collect();
+                let got: Vec<_> = p2.iter().filter(|f| !is_bare(f)).map(view).collect();
                 if rest == got {
                     return Some("KF-K8-R4-bare-hunkless-git-entry-vanishes");
                 }
